@@ -15,7 +15,7 @@ THEOREMS = [
     "C06_old_criterion_single_block",
     "C06_stop_rule",
 ]
-CORR_OPS = ["kmeans_iter:e_step", "kmeans_iter:fit1_numpy", "kmeans_iter:fit1_dask", "kmeans_iter:from_initialize", "em_stop:kmeans_numpy", "em_stop:kmeans_dask"]
+CORR_OPS = ["kmeans_iter:e_step", "kmeans_iter:fit1_numpy", "kmeans_iter:fit1_dask", "kmeans_iter:from_initialize", "em_stop:kmeans_numpy", "em_stop:kmeans_dask", "em_stop:kmeans_refit"]
 RULE = ("data x initial centroids (explicit arrays, or what the real initialize produced for seeded 'random' / 'k-means||') x row "
         "chunkings; near-tie assignments (relative margin < 1e-6) and scenarios with an empty cluster are discarded and counted; "
         "non-trivial = >= 2 clusters and >= 2 distinct assignments")
@@ -161,6 +161,35 @@ def correspondence(ctx):
             if isinstance(crit, core.ImplError) or o.get("k") != len(crit) or crit != full[: len(crit)] or amd != crit[-1]:
                 bad.append({"op": tag, "input": {**{k: sc[k] for k in ("K", "D", "x", "cent", "sizes")}, "cap": cap, "thr": thr}, "model": o,
                             "impl": repr(crit) if isinstance(crit, core.ImplError) else {"iterations": len(crit), "criteria": crit, "no_threshold": full, "average_min_distance": amd}})
+    # the same machine object fitted again: the loop must not remember anything from the previous fit
+    from bob.learn.em import kmeans as kmod2
+
+    lines, meta = [], []
+    for i in range(ctx.budget(16, 120)):
+        scA, scB = scenario(ctx, i), scenario(ctx, i + 1)
+        K, D = scA["K"], scA["D"]
+        r = ctx.rng
+        xB = scA["x"] * float(r.choice([1.0, 0.7, 1.3])) + (r.normal(size=D) if i % 2 else 0.0)
+        centB = xB[r.choice(len(xB), K, replace=False)] + 0.05 * r.normal(size=(K, D))
+        cap = int(r.integers(3, 8))
+        thr = float(r.choice([0.5, 0.2, 0.05, 1e-3]))
+        m = KMeansMachine(K, init_method=np.array(scA["cent"]), max_iter=cap, convergence_threshold=thr)
+        core.impl(lambda: m.fit(scA["x"]))
+        m.init_method = np.array(centB)
+        with obs.Recorder(kmod2, "m_step", lambda out: float(out[1])) as rec:
+            r1 = core.impl(lambda: m.fit(xB))
+        refit = (list(rec.seen), np.array(m.centroids_, dtype=float)) if not isinstance(r1, core.ImplError) else r1
+        scB2 = dict(K=K, D=D, x=xB, cent=centB, sizes=(len(xB),))
+        full, _, _ = fit(scB2, xB, cap, None)
+        lines.append({"op": "em_stop", "thr": core.bits(thr), "fuel": cap, "crit": core.enc(np.array(full if not isinstance(full, core.ImplError) else [0.0]))})
+        meta.append((scA, xB, centB, cap, thr, full, refit))
+    for (scA, xB, centB, cap, thr, full, refit), o in zip(meta, core.drive(lines)):
+        ctx.traces += 1
+        ctx.count("em_stop:kmeans_refit")
+        ctx.case(["refit", core.tolist(xB), core.tolist(centB), cap, thr], nontrivial=True, sample={"op": "refit", "cap": cap, "thr": thr, "criteria_B": full, "model_k": o.get("k")})
+        if isinstance(full, core.ImplError) or isinstance(refit, core.ImplError) or o.get("k") != len(refit[0]) or refit[0] != full[: len(refit[0])]:
+            bad.append({"op": "em_stop:kmeans_refit", "input": {"K": scA["K"], "D": scA["D"], "xA": scA["x"], "centA": scA["cent"], "xB": xB, "centB": centB, "cap": cap, "thr": thr},
+                        "model": o, "impl": repr(refit) if isinstance(refit, core.ImplError) else {"iterations_on_refit": len(refit[0]), "criteria_on_refit": refit[0], "criteria_fresh_no_threshold": full}})
     return bad
 
 
@@ -215,8 +244,40 @@ def oracle_stop(sc, cap, thr, use_dask):
     return None
 
 
+def oracle_refit(scA, xB, centB, cap, thr):
+    """a machine fitted before must train on new data exactly like a fresh one"""
+    from bob.learn.em import KMeansMachine
+    from bob.learn.em import kmeans as kmod
+
+    m = KMeansMachine(scA["K"], init_method=np.array(scA["cent"]), max_iter=cap, convergence_threshold=thr)
+    core.impl(lambda: m.fit(np.asarray(scA["x"], float)))
+    m.init_method = np.array(centB, dtype=float)
+    with obs.Recorder(kmod, "m_step", lambda out: float(out[1])) as rec:
+        r = core.impl(lambda: m.fit(np.asarray(xB, float)))
+    if isinstance(r, core.ImplError):
+        return {"sig": "refit-raises", "what": repr(r)}
+    crit, cent, _ = fit(dict(K=scA["K"], D=scA["D"], cent=np.asarray(centB, float)), np.asarray(xB, float), cap, thr)
+    if isinstance(crit, core.ImplError) or list(rec.seen) != crit or not np.array_equal(np.asarray(m.centroids_, float), cent):
+        return {"sig": "refit-differs-from-fresh-machine", "what": f"second fit of the same object: {len(rec.seen)} iterations, criteria {list(rec.seen)}; fresh machine: {crit!r} (cap {cap}, threshold {thr})"}
+    return None
+
+
 def search(ctx):
     fails, seen = [], set()
+    for i in range(ctx.budget(12, 120)):
+        scA = scenario(ctx, i)
+        r = ctx.rng
+        xB = scA["x"] * float(r.choice([1.0, 0.7, 1.3]))
+        centB = xB[r.choice(len(xB), scA["K"], replace=False)] + 0.05 * r.normal(size=(scA["K"], scA["D"]))
+        cap, thr = int(r.integers(3, 8)), float(r.choice([0.5, 0.2, 0.05]))
+        ctx.count("search:refit")
+        ctx.case(["refit", core.tolist(xB), cap, thr], nontrivial=True)
+        f = oracle_refit(scA, xB, centB, cap, thr)
+        if f and f["sig"] not in seen:
+            seen.add(f["sig"])
+            f["input"] = {"scA": {k: scA[k] for k in ("K", "D", "x", "cent")}, "xB": xB, "centB": centB, "cap": cap, "conv_thr": thr}
+            f["oracle"] = "refit"
+            fails.append(f)
     for i in range(ctx.budget(30, 300)):
         sc = scenario(ctx, i)
         use_dask = i % 2 == 1
@@ -250,8 +311,12 @@ def search(ctx):
 
 def replay(d):
     sc = d["input"]
-    sc["x"] = np.asarray(sc["x"], dtype=float)
-    sc["cent"] = np.asarray(sc["cent"], dtype=float)
+    if d.get("oracle") != "refit":
+        sc["x"] = np.asarray(sc["x"], dtype=float)
+        sc["cent"] = np.asarray(sc["cent"], dtype=float)
+    if d.get("oracle") == "refit":
+        a = sc["scA"]
+        return oracle_refit(dict(K=a["K"], D=a["D"], x=np.asarray(a["x"], float), cent=np.asarray(a["cent"], float)), np.asarray(sc["xB"], float), np.asarray(sc["centB"], float), sc["cap"], sc["conv_thr"])
     if d.get("oracle") == "stop":
         return oracle_stop(sc, sc["cap"], sc["conv_thr"], sc["dask"])
     return oracle(sc, use_dask=sc.get("dask", False))
